@@ -368,6 +368,20 @@ pub fn dot_completions(
 }
 
 
+/// Only a function whose first parameter is the receiver can be called as `x.m(..)`; an
+/// associated function like `fn new(k: int32) -> S` is reached as `S::new(..)`.
+fn takes_receiver(method_ty: &tast::Ty, receiver: &tast::Ty) -> bool {
+    let tast::Ty::TFunc { params, .. } = method_ty else {
+        return false;
+    };
+    let Some(first) = params.first() else {
+        return false;
+    };
+    first == receiver
+        || (first.try_constr_name().is_some()
+            && first.try_constr_name() == receiver.try_constr_name())
+}
+
 fn completions_for_type(genv: &GlobalTypeEnv, ty: &tast::Ty) -> Vec<DotCompletionItem> {
     let mut items = Vec::new();
 
@@ -390,14 +404,19 @@ fn completions_for_type(genv: &GlobalTypeEnv, ty: &tast::Ty) -> Vec<DotCompletio
         .inherent_impls
         .get(&crate::env::InherentImplKey::Exact(ty.clone()))
     {
-        methods.extend(impl_def.methods.iter().map(|(method_name, method_scheme)| {
-            DotCompletionItem {
-                name: method_name.clone(),
-                kind: DotCompletionKind::Method,
-                detail: Some(method_scheme.ty.to_pretty(80)),
-            }
-        }));
+        methods.extend(
+            impl_def
+                .methods
+                .iter()
+                .filter(|(_, method_scheme)| takes_receiver(&method_scheme.ty, ty))
+                .map(|(method_name, method_scheme)| DotCompletionItem {
+                    name: method_name.clone(),
+                    kind: DotCompletionKind::Method,
+                    detail: Some(method_scheme.ty.to_pretty(80)),
+                }),
+        );
     }
+    let receiver_ty = ty;
     if let tast::Ty::TApp { ty, .. } = ty
         && let Some(base_name) = ty.try_constr_name()
     {
@@ -406,13 +425,17 @@ fn completions_for_type(genv: &GlobalTypeEnv, ty: &tast::Ty) -> Vec<DotCompletio
             .inherent_impls
             .get(&crate::env::InherentImplKey::Constr(base_name))
         {
-            methods.extend(impl_def.methods.iter().map(|(method_name, method_scheme)| {
-                DotCompletionItem {
-                    name: method_name.clone(),
-                    kind: DotCompletionKind::Method,
-                    detail: Some(method_scheme.ty.to_pretty(80)),
-                }
-            }));
+            methods.extend(
+                impl_def
+                    .methods
+                    .iter()
+                    .filter(|(_, method_scheme)| takes_receiver(&method_scheme.ty, receiver_ty))
+                    .map(|(method_name, method_scheme)| DotCompletionItem {
+                        name: method_name.clone(),
+                        kind: DotCompletionKind::Method,
+                        detail: Some(method_scheme.ty.to_pretty(80)),
+                    }),
+            );
         }
     }
     methods.sort_by(|a, b| a.name.cmp(&b.name));
